@@ -180,6 +180,75 @@ pub fn drive(seed: u64, tier: &str, stim: Option<&str>, out: &mut Out) {
             }
         }
     }
+    // 1b. metadata beyond 1 MiB (decompressed), written and read through both APIs
+    for ic in [1u8, 2] {
+        let mut set = Settings::random(&mut rng, ic);
+        set.meta.insert("blob".into(), json!("m".repeat(1_500_000)));
+        let tiles = vec![(3u64, vec![1u8, 2, 3])];
+        let mut files: Vec<Option<Vec<u8>>> = Vec::new();
+        for api in [0u8, 1] {
+            let obs = exec(&[Op::New { tt: set.tt, tc: set.tc, api }, Op::Set(set.clone()), Op::Bulk(tiles.clone()), Op::Save], false);
+            files.push(obs.last().and_then(|o| o.file.clone()));
+        }
+        let mut views = Vec::new();
+        for f in files.iter().flatten() {
+            views.push(view_sync(f, None, &mut ctx));
+            views.push(view_async(f, None, &mut ctx));
+        }
+        out.emit(json!({"ev": "Twin", "what": "large_metadata", "none_codec": false, "bytes_sync": 0, "bytes_async": 0, "views": views}));
+        n += 1;
+    }
+    // 1c. gzip sections made of two concatenated members (valid gzip): both readers must see the same thing
+    {
+        let gz = |b: &[u8]| up_compress(2, b).expect("gzip");
+        let mut two = gz(b"hello ");
+        two.extend(gz(b"world"));
+        let s = guard(|| pmtiles2::util::decompress_all(pmtiles2::Compression::GZip, &two));
+        let a = guard(|| -> std::io::Result<Vec<u8>> {
+            use futures::AsyncReadExt;
+            let mut src = futures::io::Cursor::new(&two[..]);
+            let mut rd = pmtiles2::util::decompress_async(pmtiles2::Compression::GZip, &mut src)?;
+            let mut v = Vec::new();
+            block_on(rd.read_to_end(&mut v))?;
+            Ok(v)
+        });
+        let mut t = Interner::default();
+        let mut view = |r: Result<std::io::Result<Vec<u8>>, String>| match r {
+            Ok(Ok(b)) => json!({"res": "ok", "tok": t.tok(&b)}),
+            Ok(Err(_)) => json!({"res": "err"}),
+            Err(_) => json!({"res": "panic"}),
+        };
+        let vs = [view(s), view(a)];
+        out.emit(json!({"ev": "Twin", "what": "two_member_gzip_stream", "none_codec": false, "bytes_sync": 0, "bytes_async": 0, "views": vs}));
+        n += 1;
+        // an archive whose metadata section holds two gzip members
+        let root = gz(&hint_encode_dir(&[HEntry { id: 4, run: 1, len: 3, off: 0 }]));
+        let mut meta = gz(br#"{"name":"first member"}"#);
+        meta.extend(gz(br#"{"name":"second member"}"#));
+        let data = vec![9u8, 9, 9];
+        let mut h = Vec::new();
+        h.extend_from_slice(b"PMTiles");
+        h.push(3);
+        let mut pos = 127u64;
+        for sec in [root.len(), meta.len(), 0, data.len()] {
+            h.extend_from_slice(&pos.to_le_bytes());
+            h.extend_from_slice(&(sec as u64).to_le_bytes());
+            pos += sec as u64;
+        }
+        for c in [1u64, 1, 1] {
+            h.extend_from_slice(&c.to_le_bytes());
+        }
+        h.extend_from_slice(&[1, 2, 1, 1, 0, 0]);
+        h.extend_from_slice(&[0u8; 16]);
+        h.push(0);
+        h.extend_from_slice(&[0u8; 8]);
+        h.extend_from_slice(&root);
+        h.extend_from_slice(&meta);
+        h.extend_from_slice(&data);
+        out.emit(json!({"ev": "Twin", "what": "two_member_gzip_metadata", "none_codec": false, "bytes_sync": 0, "bytes_async": 0,
+                        "views": [view_sync(&h, None, &mut ctx), view_async(&h, None, &mut ctx)]}));
+        n += 1;
+    }
     // 2. archives from other writers and the fixtures through both readers, read_directories twins
     let files = collect_files(&mut rng, seed, tier, stim, "c12");
     for (k, (bytes, _, with_data)) in files.iter().enumerate() {
